@@ -69,6 +69,27 @@ def gen_cases(rng, n, tier):
             order += [j] * len(p)
         rng.shuffle(order)
         out.append(dict(cfg=cfgs[i % len(cfgs)], progs=progs, order=order))
+    # savepoints in interleaved sessions (observation-only: per-session result = solo run, nothing left in memory)
+    for i in range(max(10, n // 8)):
+        progs = []
+        for j in range(2 if i % 3 else 3):
+            pr = []
+            if rng.random() < 0.5:
+                pr += [['add', rng.choice([0, 1]), 1, {'a': 1}], ['flush']]
+            pr += [['sp_begin'], ['add', 0, 2, {'a': 2}]]
+            if rng.random() < 0.8:
+                pr.append(['flush'])
+            pr.append([rng.choice(['sp_rollback', 'sp_rollback', 'sp_release'])])
+            pr += [['add', 1, 2, {'a': 3}]]
+            if rng.random() < 0.5:
+                pr.append(['flush'])
+            pr += [['commit'], ['set', 1, 2, {'a': 4}], [rng.choice(['commit', 'rollback', 'close'])]]
+            progs.append(pr)
+        order = []
+        for j, p_ in enumerate(progs):
+            order += [j] * len(p_)
+        rng.shuffle(order)
+        out.append(dict(cfg=cfgs[i % len(cfgs)], progs=progs, order=order, obs_only=True))
     if tier == 'thorough':
         base = [['add', 0, 1, {'a': 1}], ['flush'], ['set', 0, 1, {'a': 2}], ['commit']]
         other = [['add', 0, 1, {'a': 5}], ['flush'], ['rollback'], ['add', 1, 1, {'a': 0}], ['commit']]
@@ -79,7 +100,11 @@ def gen_cases(rng, n, tier):
 
 def corpus():
     cfg = dict(shape='blog', strategy='validity', twin=False)
-    return [dict(cfg=cfg, progs=[[['add', 3, 1, {'a': 1}], ['flush'], ['close'], ['add', 0, 1, {'a': 1}], ['commit'], ['set', 0, 1, {'a': 2}], ['commit']],
+    return [dict(cfg=cfg, obs_only=True,
+                 progs=[[['add', 0, 1, {'a': 1}], ['commit']],
+                        [['sp_begin'], ['add', 0, 2, {'a': 2}], ['flush'], ['sp_rollback'], ['add', 1, 2, {'a': 3}], ['flush'], ['commit']]],
+                 order=[1, 0, 0, 1, 1, 1, 1, 1, 1]),
+            dict(cfg=cfg, progs=[[['add', 3, 1, {'a': 1}], ['flush'], ['close'], ['add', 0, 1, {'a': 1}], ['commit'], ['set', 0, 1, {'a': 2}], ['commit']],
                                  [['add', 0, 1, {'a': 7}], ['flush'], ['commit']]], order=[0, 0, 1, 0, 1, 0, 0, 1, 0, 0]),
             dict(cfg=cfg, progs=[[['add', 0, 1, {'a': 1}], ['flush'], ['set', 0, 1, {'a': 2}], ['flush'], ['commit']],
                                  [['execopt'], ['add', 0, 1, {'a': 7}], ['flush'], ['commit']]], order=[0, 0, 1, 1, 1, 1, 0, 0, 0]),
@@ -172,6 +197,7 @@ def run_schedule(env, cfg, progs, order):
     """execute the interleaving; returns steps, maps, final snapshots"""
     mr = MultiRun(env, cfg, len(progs))
     refs = [dict() for _ in progs]
+    sps = [[] for _ in progs]
     pos = [0] * len(progs)
     classes = env.classes
     outcomes = []
@@ -209,17 +235,27 @@ def run_schedule(env, cfg, progs, order):
                         rf.pop((op[1], op[2]), None)
                 elif kind == 'flush':
                     s.flush()
+                elif kind == 'sp_begin':
+                    sps[j].append(s.begin_nested())
+                elif kind in ('sp_rollback', 'sp_release'):
+                    if sps[j]:
+                        h_ = sps[j].pop()
+                        (h_.rollback if kind == 'sp_rollback' else h_.commit)()
+                        if kind == 'sp_rollback':
+                            rf.clear()
                 elif kind == 'execopt':
                     # execution options set on the session's connection (set_connection_execution_options event)
                     mr.conns[j].execution_options(verif_marker=len(outcomes))
                     mr.mark_opt(j)
                 elif kind == 'commit':
                     s.commit()
+                    sps[j][:] = []
                     mr.mark(j, 'commit')
                 elif kind == 'rollback':
                     mr.recs[j].cur = None
                     s.rollback()
                     rf.clear()
+                    sps[j][:] = []
                     mr.mark(j, 'rollback')
                 elif kind == 'close':
                     active = s.in_transaction()
@@ -290,9 +326,11 @@ def quiescent(case):
 def encode(case, obs):
     if obs.get('exc'):
         return ('{| c9_cfg := mkcfg true false false false false []; c9_steps := []; c9_maps := []; c9_finals := []; '
-                'c9_solo := []; c9_quiescent := false; c9_exc := true |}')
+                'c9_solo := []; c9_quiescent := false; c9_obsonly := false; c9_exc := true |}')
     full = obs['full']
     ccfg = obs['ccfg']
+    if case.get('obs_only'):
+        full = dict(full, steps=[], maps=[full['maps_end']])
     steps = glist(full['steps'], lambda se: '(%s, %s, %s)' % (
         gnat(se[0]), gnat(se[0]), 'GOpt' if se[1]['ev'] == 'execopt' else '(GE %s)' % hist.g_event(se[1])))
     maps = glist(full['maps'] + [full['maps_end']],
@@ -302,7 +340,8 @@ def encode(case, obs):
     finals = glist(list(enumerate(full['finals'])), lambda js: gpair(gnat(js[0]), hist.g_snap(js[1], ccfg)))
     solo = glist(list(enumerate(obs['solo'])), lambda js: gpair(gnat(js[0]), hist.g_snap(js[1], ccfg)))
     return ('{| c9_cfg := %s; c9_steps := %s; c9_maps := %s; c9_finals := %s; c9_solo := %s; c9_quiescent := %s; '
-            'c9_exc := false |}') % (hist.g_cfg(case['cfg'], ccfg), steps, maps_steps, finals, solo, gbool(quiescent(case)))
+            'c9_obsonly := %s; c9_exc := false |}') % (hist.g_cfg(case['cfg'], ccfg), steps, maps_steps, finals, solo,
+                                                       gbool(quiescent(case)), gbool(bool(case.get('obs_only'))))
 
 
 def nontrivial(case, obs):
